@@ -102,7 +102,8 @@ Record equiet (e : ep) : Prop := mk_equiet {
   q_li : listener_alive e = false;
   q_h : forall p h, lookup p (handles e) = Some h -> h_tx h <> Alive /\ h_rx h <> Alive;
   q_r : forall r s, lookup r (requests e) = Some s -> s = RDropped \/ s = RAnswered;
-  q_acc : count is_acc (chq e) = 0
+  q_acc : count is_acc (chq e) = 0;
+  q_acq : count is_acc (cq e) = 0
 }.
 
 Definition w_life (l : life) : N := match l with Dropped => 3 | _ => 0 end.
@@ -209,7 +210,7 @@ Proof. unfold w_ep, w_flags. lia. Qed.
 Lemma q_NTx e p e' : step_opt e (NTx p) = Some e' -> equiet e ->
   equiet e' /\ w_ep e' + 1 <= w_ep e /\ mx e' = mx e /\ sent e' = sent e /\ dead e' = dead e.
 Proof.
-  intros H [Q1 Q2 Q3 Q4 Q5]. open_step H. cases. inj H. rewrite !w_ep_eq. unfold set_handle. prj. split; [|split; [|auto]].
+  intros H [Q1 Q2 Q3 Q4 Q5 Q6]. open_step H. cases. inj H. rewrite !w_ep_eq. unfold set_handle. prj. split; [|split; [|auto]].
   - constructor; prj; auto.
     + intros p0 h0. rewrite lookup_insert. destruct (p0 =? p); [|apply Q3]. intros [= <-]. prj. split; [discriminate|]. apply (Q3 _ _ E).
     + rewrite count_snoc, Q5. reflexivity.
@@ -219,7 +220,7 @@ Qed.
 Lemma q_NRx e p e' : step_opt e (NRx p) = Some e' -> equiet e ->
   equiet e' /\ w_ep e' + 1 <= w_ep e /\ mx e' = mx e /\ sent e' = sent e /\ dead e' = dead e.
 Proof.
-  intros H [Q1 Q2 Q3 Q4 Q5]. open_step H. cases. inj H. rewrite !w_ep_eq. unfold set_handle. prj. split; [|split; [|auto]].
+  intros H [Q1 Q2 Q3 Q4 Q5 Q6]. open_step H. cases. inj H. rewrite !w_ep_eq. unfold set_handle. prj. split; [|split; [|auto]].
   - constructor; prj; auto.
     + intros p0 h0. rewrite lookup_insert. destruct (p0 =? p); [|apply Q3]. intros [= <-]. prj. split; [|discriminate]. apply (Q3 _ _ E).
     + rewrite count_snoc, Q5. reflexivity.
@@ -229,7 +230,7 @@ Qed.
 Lemma q_NReq e r e' : step_opt e (NReq r) = Some e' -> equiet e ->
   equiet e' /\ w_ep e' + 1 <= w_ep e /\ mx e' = mx e /\ sent e' = sent e /\ dead e' = dead e.
 Proof.
-  intros H [Q1 Q2 Q3 Q4 Q5]. open_step H. cases. inj H. rewrite !w_ep_eq. prj. split; [|split; [|auto]].
+  intros H [Q1 Q2 Q3 Q4 Q5 Q6]. open_step H. cases. inj H. rewrite !w_ep_eq. prj. split; [|split; [|auto]].
   - constructor; prj; auto.
     + intros k s. rewrite lookup_insert. destruct (k =? r); [intros [= <-]; now right|apply Q4].
     + rewrite count_snoc, Q5. reflexivity.
@@ -245,13 +246,13 @@ Lemma q_after e1 mold ev m effs :
   handle_event mold ev = Done m effs -> is_acc ev = false -> equiet e1 ->
   equiet (finish e1 (Done m effs)) /\ w_ep (finish e1 (Done m effs)) = w_parts e1 + w_flags m.
 Proof.
-  intros He Ha [Q1 Q2 Q3 Q4 Q5]. destruct (he_flags _ _ _ _ He) as (_ & _ & _ & Hn & Hr). rewrite Ha in Hn. cbn [b2n] in Hn.
+  intros He Ha [Q1 Q2 Q3 Q4 Q5 Q6]. destruct (he_flags _ _ _ _ He) as (_ & _ & _ & Hn & Hr). rewrite Ha in Hn. cbn [b2n] in Hn.
   destruct (finish_Done_fields e1 m effs) as (F1 & F2 & F3 & F4 & F5). cbv zeta in *.
   destruct (finish_Done_view e1 m effs) as (V1 & V2 & V3 & V4).
   destruct (apply_effs_still effs (e1 <| mx := m |>) Hn Hr) as [S1 S2].
   destruct (apply_effs_misc effs (e1 <| mx := m |>)) as (M1 & M2 & M3 & M4). prj.
   split.
-  - constructor; rewrite ?F1, ?F2, ?F4, ?F5, ?S1, ?S2, ?M2, ?M3, ?V2; prj; auto.
+  - constructor; rewrite ?F1, ?F2, ?F3, ?F4, ?F5, ?S1, ?S2, ?M1, ?M2, ?M3, ?V2; prj; auto.
   - rewrite w_ep_eq, V1, V2, F1, F2, F3, S1, S2, M1. prj. reflexivity.
 Qed.
 
@@ -264,7 +265,7 @@ Qed.
 Lemma q_DPort e e' : step_opt e DPort = Some e' -> equiet e -> panicked e' = None ->
   equiet e' /\ w_ep e' + sum (map w_frame (new_frames e e')) + 1 <= w_ep e /\ cnt m_ispo (new_frames e e') = 0 /\ dead e' = dead e.
 Proof.
-  intros H Hq Hp. pose proof Hq as [Q1 Q2 Q3 Q4 Q5]. pose proof (view_DPort _ _ H) as (ev & q & Eq & Hv).
+  intros H Hq Hp. pose proof Hq as [Q1 Q2 Q3 Q4 Q5 Q6]. pose proof (view_DPort _ _ H) as (ev & q & Eq & Hv).
   destruct (disp_done _ _ _ _ Hv Hp) as (m & effs & He & E1 & E2 & E3 & E4).
   rewrite (new_frames_app _ _ _ E3).
   assert (Ha : is_acc ev = false).
@@ -281,17 +282,17 @@ Proof.
     destruct ev; prj; try (split; [exact Hbase|lia]).
     - (* EAccepted *) discriminate.
     - split; [|pose proof (wsum_remove_le w_req remote_port (requests e)); lia].
-      destruct Hbase as [B1 B2 B3 B4 B5]. constructor; prj; auto. intros r s. rewrite lookup_remove. destruct (r =? remote_port); [discriminate|apply B4].
+      destruct Hbase as [B1 B2 B3 B4 B5 B6]. constructor; prj; auto. intros r s. rewrite lookup_remove. destruct (r =? remote_port); [discriminate|apply B4].
     - destruct (lookup p (handles e)) as [h|] eqn:El; [|split; [exact Hbase|prj; lia]]. unfold set_handle. prj. split.
-      + destruct Hbase as [B1 B2 B3 B4 B5]. constructor; prj; auto. intros p0 h0. rewrite lookup_insert.
+      + destruct Hbase as [B1 B2 B3 B4 B5 B6]. constructor; prj; auto. intros p0 h0. rewrite lookup_insert.
         destruct (p0 =? p); [|apply B3]. intros [= <-]. prj. split; [discriminate|apply (Q3 _ _ El)].
       + pose proof (wsum_insert_lookup w_handle p (h <| h_tx := Gone |>) _ _ El) as W. unfold w_handle in *. prj. cbn [w_life] in W. lia.
     - destruct (lookup p (handles e)) as [h|] eqn:El; [|split; [exact Hbase|prj; lia]]. unfold set_handle. prj. split.
-      + destruct Hbase as [B1 B2 B3 B4 B5]. constructor; prj; auto. intros p0 h0. rewrite lookup_insert.
+      + destruct Hbase as [B1 B2 B3 B4 B5 B6]. constructor; prj; auto. intros p0 h0. rewrite lookup_insert.
         destruct (p0 =? p); [|apply B3]. intros [= <-]. prj. apply (Q3 _ _ El).
       + pose proof (wsum_insert_lookup w_handle p (h <| h_rxc := Gone |>) _ _ El) as W. unfold w_handle in *. prj. lia.
     - destruct (lookup p (handles e)) as [h|] eqn:El; [|split; [exact Hbase|prj; lia]]. unfold set_handle. prj. split.
-      + destruct Hbase as [B1 B2 B3 B4 B5]. constructor; prj; auto. intros p0 h0. rewrite lookup_insert.
+      + destruct Hbase as [B1 B2 B3 B4 B5 B6]. constructor; prj; auto. intros p0 h0. rewrite lookup_insert.
         destruct (p0 =? p); [|apply B3]. intros [= <-]. prj. split; [apply (Q3 _ _ El)|discriminate].
       + pose proof (wsum_insert_lookup w_handle p (h <| h_rx := Gone |>) _ _ El) as W. unfold w_handle in *. prj. cbn [w_life] in W. lia. }
   destruct Hq1 as [Hq1 Hw1]. destruct (q_after e1 _ _ _ _ He Ha Hq1) as [A1 A2].
